@@ -50,7 +50,7 @@ class _StubRS:
         return a
 
 
-OPS = ['Ps', 'Pv', 'P0', 'F', 'FF', 'W', 'WH', 'R', 'rF', 'rWH', 'rW']
+OPS = ['Ps', 'Pv', 'P0', 'F', 'FF', 'FB', 'W', 'WH', 'R', 'rF', 'rWH', 'rW']
 
 
 class _Shadow:
@@ -60,6 +60,7 @@ class _Shadow:
         self.unit = False      # F normalised by the API
         self.P = None          # vector or None (= ones)
         self.WH = None
+        self.backoff = None    # full_F handed over with less than the power
 
 
 def _norm(a, sqrt):
@@ -72,6 +73,8 @@ def _norm(a, sqrt):
 
 def _apply(sol, sh, op, mk, dims, tag):
     K, Nr, Nt, Ns = dims
+    if op in ('Ps', 'Pv', 'P0', 'F', 'FF', 'R'):
+        sh.backoff = None      # full_F is derived from F and P again
     if op == 'Ps':
         v = mk.pos('p' + tag)
         sol.P = v
@@ -103,6 +106,20 @@ def _apply(sol, sh, op, mk, dims, tag):
         sh.unit = True
         sh.P = list(v)
         sh.fullF_given = [X[k] for k in range(K)]
+    elif op == 'FB':
+        # full precoders that use LESS than the power handed over with them
+        # (as an MMSE-style solution does): F is their normalised version,
+        # full_F stays as given until the power is assigned again
+        X = np.empty(K, dtype=object)
+        for k in range(K):
+            X[k] = mk.cmat('Y%d%s' % (k, tag), (Nt[k], Ns[k]))
+        v = [_norm(X[k], lambda t: t) * 2 for k in range(K)]
+        sol.set_precoders(full_F=X, P=np.array(v, dtype=object)
+                          if mk.symbolic else np.array(v, dtype=float))
+        sh.F = [X[k] / _norm(X[k], mk.sqrt) for k in range(K)]
+        sh.unit = True
+        sh.P = list(v)
+        sh.backoff = [X[k] for k in range(K)]
     elif op == 'W':
         W = np.empty(K, dtype=object)
         for k in range(K):
@@ -258,13 +275,18 @@ class Derived(Harness):
         for k in range(K):
             want = sh.F[k] * (Mk.sqrt(P[k]) if not isinstance(P[k], int)
                               else math.sqrt(P[k]))
+            if sh.backoff is not None:
+                want = sh.backoff[k]
             d_full.append(fullF[k] - want)
             d_full.append(sol.F[k] - sh.F[k])
             if sh.unit:
                 n2 = _norm(sol.F[k], lambda t: t)
                 d_unit.append(np.array([n2 - 1], dtype=object))
                 p2 = _norm(fullF[k], lambda t: t)
-                d_pow.append(np.array([p2 - P[k]], dtype=object))
+                if sh.backoff is None:
+                    d_pow.append(np.array([p2 - P[k]], dtype=object))
+                else:
+                    d_pow.append(np.array([p2 * 2 - P[k]], dtype=object))
             if int(sol.Ns[k]) != Ns[k]:
                 d_ns.append(np.array([1.0]))
         prove('full_F=F*sqrt(P)', d_full)
@@ -744,6 +766,52 @@ class Finalize(Harness):
                 n += 1
         return n, reduced, sorted(set(bad))
 
+    def _nonsquare_probe(self, rng):
+        """real solves on NON-SQUARE antenna configurations (Nt != Nr;
+        beyond the symbolic bound, which is 2x2): solving completes and the
+        relations hold"""
+        from pysym.runner import ConcreteViolation
+        alg = repo_module(ALG)
+        mu = repo_module(MU)
+        n = 0
+        for solver in ('MaxSinrIASolver', 'AlternatingMinIASolver',
+                       'MinLeakageIASolver'):
+            for (K, Nr, Nt, Ns) in ((3, 2, 3, 1), (3, 3, 2, 1), (2, 2, 3, 1),
+                                    (3, 3, 4, 1)):
+                ch = mu.MultiUserChannelMatrix()
+                ch.set_channel_seed(rng.randrange(1 << 30))
+                ch.randomize(Nr, Nt, K)
+                ch.noise_var = 1e-2
+                sol = getattr(alg, solver)(ch)
+                sol._rs = np.random.RandomState(rng.randrange(1 << 30))
+                sol.max_iterations = 30
+                P = 1.7
+                bad = []
+                try:
+                    sol.solve(Ns, P)
+                    for k in range(K):
+                        if sol.F[k].shape != (Nt, Ns) or \
+                                sol.full_W_H[k].shape != (Ns, Nr):
+                            bad.append('shapes')
+                        if abs(np.linalg.norm(sol.F[k]) - 1) > 1e-8:
+                            bad.append('F-not-unit-norm')
+                        if abs(np.linalg.norm(sol.full_F[k])**2 - P) > \
+                                1e-8 * P:
+                            bad.append('power-not-met')
+                        eq = sol.full_W_H[k] @ ch.get_Hkl(k, k) @ \
+                            sol.full_F[k]
+                        if np.max(np.abs(eq - np.eye(Ns))) > 1e-6:
+                            bad.append('filter-does-not-invert')
+                except Exception as e:        # noqa
+                    bad.append('solve-raises-' + type(e).__name__)
+                if bad:
+                    raise ConcreteViolation(
+                        'C10/solve/%s/non-square:%s:concrete-probe' % (
+                            solver, '+'.join(sorted(set(bad)))),
+                        dict(K=K, Nr=Nr, Nt=Nt, Ns=Ns))
+                n += 1
+        return n
+
     def replay(self, cfg, name, model):
         import random
         for seed in range(12):
@@ -762,6 +830,8 @@ class Finalize(Harness):
                 raise ConcreteViolation('C10/finalize/' + '+'.join(bad) +
                                         ':concrete-probe', dict(cfg=cfg))
         n = 6
+        if cfg['filt'] == 'W_H':
+            n += self._nonsquare_probe(rng)
         if cfg['filt'] == 'W':
             k, reduced, bad = self._solve_probe(rng)
             if bad:
